@@ -8,16 +8,25 @@
 (* to that base path (so consecutive requests differ in what the template    *)
 (* functions look up), and an update is followed by the documented           *)
 (* invalidation before the next processed request (RequireInvalidate).       *)
+(* Focus = "mixed": each behaviour is one of the following two kinds.         *)
+(* Focus = "render": template requests.  Focus = "store": the backing store   *)
+(* is edited from outside and the very next request is a resolution or a      *)
+(* plain get of one of the four candidates (no other backend access in        *)
+(* between); requests that make the backend re-read the store are rare.       *)
 (***************************************************************************)
 EXTENDS ConfigQuerySvc
 
-VARIABLE last      \* base path -> variables of the last processed request there
+CONSTANT Focus
 
-gvars == <<svars, last>>
+VARIABLES last,    \* base path -> variables of the last processed request there
+          foc      \* what this behaviour concentrates on
+
+gvars == <<svars, last, foc>>
 
 NoVars == << <<"-", "-">> >>
 
-GInit == Init /\ last = [d \in {"D1", "D2"} |-> NoVars]
+GInit == /\ Init /\ last = [d \in {"D1", "D2"} |-> NoVars]
+         /\ foc \in (IF Focus = "mixed" THEN {"render", "store"} ELSE {Focus})
 
 G_Process(e, i) == /\ VarCat[i] # last[DirOf(e)]
                    /\ Process(e, VarCat[i])
@@ -26,13 +35,30 @@ G_Raw(e)        == Raw(e) /\ UNCHANGED last
 G_Invalidate    == (dirty \/ \E e \in Entries : compiled[e] # NoSnap) /\ Invalidate /\ UNCHANGED last
 G_Update(e, i)  == ~dirty /\ Update(e, UpdCat[i]) /\ UNCHANGED last
 
+G_ExternalEdit(k, v) == ExternalEdit(k, v) /\ UNCHANGED last
+G_Resolve(k)         == Resolve(k) /\ UNCHANGED last
+G_GetX(k)            == GetX(k) /\ UNCHANGED last
+
+\* an edit is immediately followed by a resolution or a get of a candidate (or by one more edit)
+AfterEdit == req.op = "ExternalEdit"
+StoreNext ==
+  \/ \E k \in Keys : G_Resolve(k)
+  \/ AfterEdit /\ G_GetX(req.e)
+  \/ ~AfterEdit /\ \E k \in {"Pr", "Aa"} : G_GetX(k)
+  \/ \E k \in Keys, v \in EditVals : (AfterEdit => k # req.e) /\ G_ExternalEdit(k, v)
+  \/ ~AfterEdit /\ (G_Raw("D1e") \/ G_Update("D1e", 1) \/ G_Process("D1f", 2) \/ G_Invalidate)
+
 \* processed requests are what the property is about: three chances in the disjunction
-GNext == \/ \E e \in Askable, i \in VarIds : G_Process(e, i)
-         \/ \E e \in Entries \ {"D2s"}, i \in VarIds : G_Process(e, i)
-         \/ \E e \in {"D1e", "D1f", "D2e"}, i \in VarIds : G_Process(e, i)
-         \/ \E e \in {"D1e", "D2e", "D2f"} : G_Raw(e)
-         \/ G_Invalidate
-         \/ \E e \in UpdEntries, i \in UpdIds : G_Update(e, i)
+RenderNext ==
+  \/ \E e \in Askable, i \in VarIds : G_Process(e, i)
+  \/ \E e \in Entries \ {"D2s"}, i \in VarIds : G_Process(e, i)
+  \/ \E e \in {"D1e", "D1f", "D2e"}, i \in VarIds : G_Process(e, i)
+  \/ \E e \in {"D1e", "D2e", "D2f"} : G_Raw(e)
+  \/ G_Invalidate
+  \/ \E e \in UpdEntries, i \in UpdIds : G_Update(e, i)
+
+GNext == \/ foc = "render" /\ RenderNext /\ UNCHANGED foc
+         \/ foc = "store" /\ StoreNext /\ UNCHANGED foc
 
 GenSpec == GInit /\ [][GNext]_gvars
 =============================================================================
